@@ -10,7 +10,7 @@ LEVEL = "exploration"
 RULE = ("inputs (<= 4 kB of UTF-8) come from (a) a generator DERIVED AT RUN TIME from the working tree's grammar.pest (every "
         "production, types ignored, identifiers biased toward names already used so that many inputs pass name resolution), (b) "
         "token-level mutation (delete / insert / duplicate / swap / replace by a grammar terminal, 1-4 edits) of the example "
-        "corpus and of well-typed generated programs, (c) near-miss TYPE PAIRS: a random type T (primitives, open and fixed-shape lists, maps, optionals, function types, classes, aliases; depth <= 3), a type one structural edit away from it, and a value of the second supplied where the first is wanted (declaration, argument, re-assignment, return, `or` fallback, field, element, map value, comparison, index), (d) an enumerated import matrix (form x target file x imported names x context, compiled next to helper modules), (e) an enumerated family of boundary shapes (deep nesting of every "
+        "corpus and of well-typed generated programs, (c) near-miss TYPE PAIRS: a random type T (primitives, open and fixed-shape lists, maps, optionals, function types, classes, aliases; depth <= 3), a type one structural edit away from it, and a value of the second supplied where the first is wanted (declaration, argument, re-assignment, return, `or` fallback, field, element, map value, comparison, index), (d) an enumerated import matrix (form x target file x imported names x context, compiled next to helper modules), (e) the COMPLETE single-edit neighbourhood of two hand-written well-typed programs that use every construct (each token replaced by each of 70 words, each of 22 snippets inserted at each token boundary, each token deleted; 56 000 inputs, all of them in both tiers), (f) a composition matrix: 28 outer expression forms x 24 inner forms x 8 statement forms x 8 places (module, function, closure, method, constructor, closure in a method, if block, loop body), (g) an enumerated family of boundary shapes (deep nesting of every "
         "bracketing construct, long operator chains, huge literals, unterminated tokens, import of odd paths). Oracle: `mscript "
         "compile f.ms --quick` exits 0, or exits 1 with diagnostics; exit 101 / a signal / a reproducible watchdog hit is a "
         "violation. Non-trivial = the input gets past the parser (no syntax diagnostic); distinct by input text")
@@ -209,6 +209,36 @@ def matrix_inputs():
     return out
 
 
+# ---- compositions in contexts: (outer expression form with a hole) x (inner form) x (statement form) x (place in the program).
+# The matrix above stays at module level; code paths that depend on WHERE an expression stands (inside a class the type checker
+# works with the class being defined, inside a closure with captured names, ...) need the same shapes in every place.
+OUTER = ["(%s)", "-%s", "!%s", "get %s", "typeof %s", "%s + 1", "1 + %s", "%s == v", "(%s) or 1", "o or %s", "v or %s", "(o or %s)", "%s is nil", "[%s]", "[%s, 1]",
+         "map[str, int] {\"k\": %s}", "(%s)[0]", "lst[%s]", "(%s).n", "(%s).len()", "idf(%s)", "(%s)()", "(%s)(1)", "k.add(%s)", "%s && true", "true || %s",
+         "fn() -> int { return %s }", "(fn() -> int { return %s })()"]
+INNER = ["true", "nil", "self", "1", "1.5", "\"s\"", "[1]", "map[str, int] {\"k\": 1}", "fn() { }", "fn() -> int { return 1 }", "fn(n: int) -> int { return n }", "v", "o", "k", "K",
+         "undeclared", "k.n", "self.n", "lst[0]", "idf(1)", "K()", "(o or 1)", "get o", "typeof v"]
+STMT = ["print %s", "r: int = %s", "r = %s", "return %s", "if %s {\n}", "k.n = %s", "lst[0] = %s", "assert %s"]
+COMP_PRE = ("class K {\n\tn: int\n\tconstructor(self) {\n\t\tself.n = 1\n\t}\n\tfn add(self, d: int) -> int {\n\t\treturn self.n + d\n\t}\n}\n"
+            "v = 1\no: int? = nil\nk = K()\nlst: [int...] = [1, 2]\nidf = fn(a: int) -> int {\n\treturn a\n}\n")
+PLACES = {"module": "%s\n", "function": "w = fn() -> int {\n\t%s\n\treturn 0\n}\n", "closure": "w = fn() -> fn() -> int {\n\tc = 1\n\treturn fn() -> int {\n\t\t%s\n\t\treturn c\n\t}\n}\n",
+          "method": "class W {\n\tn: int\n\tstep: (fn(int) -> int)?\n\tfn go(self) -> int {\n\t\t%s\n\t\treturn 0\n\t}\n}\n",
+          "constructor": "class W {\n\tn: int\n\tconstructor(self) {\n\t\tself.n = 1\n\t\t%s\n\t}\n}\n",
+          "closure-in-method": "class W {\n\tn: int\n\tfn go(self) -> int {\n\t\tc = 1\n\t\tq = fn() -> int {\n\t\t\t%s\n\t\t\treturn c\n\t\t}\n\t\treturn q()\n\t}\n}\n",
+          "if-block": "if v == 1 {\n\t%s\n}\n", "loop-body": "from 0 to 2, i {\n\t%s\n}\n"}
+
+
+def composition_inputs():
+    out = []
+    for pn, place in PLACES.items():
+        indent = "\n" + "\t" * (place[:place.index("%s")].split("\n")[-1].count("\t"))
+        for st_ in STMT:
+            for o in OUTER:
+                for i in INNER:
+                    stmt = (st_ % (o % i)).replace("\n", indent)
+                    out.append(("compose:%s:%s" % (pn, st_.split(" ")[0]), COMP_PRE + place % stmt))
+    return out
+
+
 def import_inputs():
     """(import form) x (target: existing module, the file itself, a sub-directory module, a file that does not parse, a missing
     file, a directory) x (names: exported / private / undeclared / a type / a class / twice) x (context: top level, function,
@@ -229,11 +259,45 @@ def import_inputs():
     return out
 
 
+# ---- the complete single-edit neighbourhood of two hand-written, well-typed programs that between them use every construct
+# (aliases, constants, fixed-shape and open lists, maps, optionals, classes with Self, closures, recursion, loops, unpacking):
+# every token replaced by every word of a dictionary, every short snippet inserted at every token boundary, every token
+# deleted.  Random mutation reaches such an input with probability ~ 1 / (tokens x dictionary); this family reaches all.
+EDIT_WORDS = ["int", "float", "str", "bool", "I", "Txt", "P", "Self", "self", "nil", "true", "false", "1", "0", "1.5", "B1", "0b1", "\"s\"", "x", "o", "lst", "m", "fixed", "p", "g", "xs",
+              "+", "-", "*", "/", "%", "==", "!=", "<", "&&", "||", "or", "is", "?=", "=", "+=", ".", "?", "!", "get", "typeof", "const", "modify", "export", "return", "break", "continue",
+              "print", "assert", "if", "else", "while", "from", "fn", "class", "type", "import", "(", ")", "[", "]", "{", "}", ",", ":", "->", "..."]
+EDIT_SNIPPETS = [": int", "?", "-", "!", "get ", "typeof ", " or 1", " or \"abc\"", "[0]", "[1.5]", ".v", ".len()", "()", "(1)", " is nil", ": I", "...", "const ", "modify ", "export ", " + 1", " == nil"]
+SEED_DIR = os.path.join(os.path.dirname(os.path.dirname(os.path.abspath(__file__))), "data")
+
+
+def neighbourhood_inputs(tier, seed):
+    out = []
+    for fname in ("c16_seed_values.ms", "c16_seed_classes.ms"):
+        text = open(os.path.join(SEED_DIR, fname), encoding="utf-8").read()
+        toks = TOK.findall(text)
+        tag = "edit:" + fname[9:-3]
+        out.append((tag + ":unchanged", text))
+        for i, t in enumerate(toks):
+            if t.isspace():
+                for sn in EDIT_SNIPPETS:
+                    out.append(("%s:insert" % tag, "".join(toks[:i]) + sn + "".join(toks[i:])))
+                continue
+            out.append(("%s:delete" % tag, "".join(toks[:i] + toks[i + 1:])))
+            for w in EDIT_WORDS:
+                if w != t:
+                    out.append(("%s:replace" % tag, "".join(toks[:i]) + w + "".join(toks[i + 1:])))
+            for sn in EDIT_SNIPPETS:
+                out.append(("%s:insert" % tag, "".join(toks[:i + 1]) + sn + "".join(toks[i + 1:])))
+    return out
+
+
 def enumerated(tier, seed):
     cases = [{"family": "boundary:" + n, "text": t} for n, t in boundary_inputs()]
+    cases += [{"family": n, "text": t} for n, t in neighbourhood_inputs(tier, seed)]
     cases += [{"family": n, "text": t} for n, t in import_inputs()]
     cases += [{"family": n, "text": t} for n, t in typepair_matrix()]
     cases += [{"family": n, "text": t} for n, t in matrix_inputs()]
+    cases += [{"family": n, "text": t} for n, t in composition_inputs()]
     return cases
 
 
